@@ -93,6 +93,8 @@ type Engine struct {
 	inflight int
 	stopAll  bool
 
+	nworkers   int
+	wg         sync.WaitGroup
 	res        TaskResult
 	seenQ      map[string]bool
 	mergeFails map[*ssa.BasicBlock]int
@@ -100,10 +102,26 @@ type Engine struct {
 	methods    sync.Map
 }
 
+// global worker slots shared by all concurrently running tasks
+var workerSlots = make(chan struct{}, 16)
+
 func (e *Engine) push(j *Job) {
 	e.mu.Lock()
 	e.queue = append(e.queue, j)
+	spawn := false
+	if len(e.queue) > 0 && e.nworkers < e.cfg.Workers {
+		select {
+		case workerSlots <- struct{}{}:
+			spawn = true
+			e.nworkers++
+			e.wg.Add(1)
+		default:
+		}
+	}
 	e.mu.Unlock()
+	if spawn {
+		go e.worker(true)
+	}
 	e.cond.Signal()
 }
 
@@ -225,16 +243,24 @@ func (w *Worker) runPath(j *Job) (end pathEnd) {
 	return pathEnd{"ok", ""}
 }
 
-func (e *Engine) worker(id int, wg *sync.WaitGroup) {
-	defer wg.Done()
+func (e *Engine) worker(helper bool) {
+	defer e.wg.Done()
+	defer func() { <-workerSlots }()
 	w := newWorker(e)
 	defer w.solver.Close()
 	for {
 		e.mu.Lock()
+		if helper && len(e.queue) == 0 {
+			// helpers leave as soon as there is nothing to take; the main worker waits for stragglers
+			e.nworkers--
+			e.mu.Unlock()
+			break
+		}
 		for len(e.queue) == 0 && e.inflight > 0 && !e.stopAll {
 			e.cond.Wait()
 		}
 		if e.stopAll || (len(e.queue) == 0 && e.inflight == 0) {
+			e.nworkers--
 			e.mu.Unlock()
 			e.cond.Broadcast()
 			break
@@ -338,16 +364,14 @@ func RunTask(prog *ssa.Program, pkg *ssa.Package, cfg Config) *TaskResult {
 	e.intr = intrinsicTable()
 	t0 := time.Now()
 	e.queue = []*Job{{}}
-	var wg sync.WaitGroup
-	n := cfg.Workers
-	if n < 1 {
-		n = 1
+	if e.cfg.Workers < 1 {
+		e.cfg.Workers = 1
 	}
-	for i := 0; i < n; i++ {
-		wg.Add(1)
-		go e.worker(i, &wg)
-	}
-	wg.Wait()
+	workerSlots <- struct{}{}
+	e.nworkers = 1
+	e.wg.Add(1)
+	go e.worker(false)
+	e.wg.Wait()
 	e.res.Wall = time.Since(t0)
 	return &e.res
 }
